@@ -1746,3 +1746,46 @@ Theorem C02_bridge_class_file_all_kinds_example : exists bs aux d cs cattrs mval
      (C01.ClassFile.cd_slots cd).
 Proof. exact X12.BridgeFile6.class_file_example6. Qed.
 Print Assumptions C02_bridge_class_file_all_kinds_example.
+
+(* ================================================================================================ *)
+(* Round 6, tenth layer — the kind part of fragment 6 holds for every written class (coq/X12/BridgeKinds.v). *)
+From FB Require X12.BridgeKinds.
+
+(* for the decoded class of ANY written cclass_ok tree, dclass_frag6 follows from dclass_side6 — the side conditions alone:
+   cside6 / fside6 / mside6 / iside6 / rside6 map every constructor of dattr / dattr0 to `true` or to one of
+   unk_ok (unknown name), anns_ok / ev_nest_ok (nesting <= 64), tas_ok (per-location targets), sde_ok (decodable bytes);
+   none is mapped to `false`.  Proof: whatever C02's decoder returns at a location is a kind fragment 6 names there *)
+Theorem C02_bridge_written_kinds : forall impl dec t bs aux d,
+  cclass_ok t = true -> write_class_aux t = WOK (bs, aux) ->
+  C01.Attr.header_ok C01.Tables.magic (Z.to_N (k_minor t)) (Z.to_N (k_major t)) = true ->
+  X12.BridgeClass.pool_utf8_ok dec (a_pool aux) = true ->
+  facts_of t aux = Some d -> X12.BridgeKinds.dclass_side6 impl dec d = true -> X12.BridgeFile6.dclass_frag6 impl dec d = true.
+Proof. exact X12.BridgeKinds.written_kinds. Qed.
+Print Assumptions C02_bridge_written_kinds.
+
+(* THE WHOLE FILE FOR EVERY cclass_ok TREE: C02_bridge_class_file_all_kinds with the fragment hypothesis replaced by the
+   side conditions (all decidable: header_ok, pool_utf8_ok, names_ok6, dclass_side6) *)
+Theorem C02_bridge_class_file_every_tree : forall impl dec t bs aux d,
+  cclass_ok t = true -> write_class_aux t = WOK (bs, aux) ->
+  C01.Attr.header_ok C01.Tables.magic (Z.to_N (k_minor t)) (Z.to_N (k_major t)) = true ->
+  X12.BridgeClass.pool_utf8_ok dec (a_pool aux) = true -> X12.BridgeFile6.names_ok6 dec = true ->
+  facts_of t aux = Some d -> X12.BridgeKinds.dclass_side6 impl dec d = true ->
+  exists cs cattrs mvals,
+    rev (p_inner (a_pool aux)) = map mk cs /\ agrees (a_pool aux) (cslots cs 1) /\
+    Forall2 (X12.BridgeFile6.crel6 dec cs) (d_attrs d) cattrs /\
+    Forall2 (X12.BridgeFile3.member_rel dec 2%N (X12.BridgeFile6.mrel6 dec)) (d_methods d) mvals /\
+    C01.ClassFile.read_class impl dec bs
+    = C01.ClassFile.build_class impl (X12.BridgePool.rpool dec cs) (Z.to_N (k_minor t)) (Z.to_N (k_major t))
+        (X12.BridgeClass.head_val dec t)
+        (C01.Fmt.VList cattrs)
+        (C01.Fmt.VList (map (X12.BridgeFile.member_val dec 1%N (X12.BridgeFile6.fattr_val6 dec)) (d_fields d)))
+        (C01.Fmt.VList mvals).
+Proof. exact X12.BridgeKinds.class_file_read_all. Qed.
+Print Assumptions C02_bridge_class_file_every_tree.
+
+(* non-vacuity: the side conditions hold (computed) for the decoded class of the all-kinds example *)
+Theorem C02_bridge_class_file_every_tree_example : exists bs aux d,
+  write_class_aux X12.BridgeFile6.ex_file6 = WOK (bs, aux) /\ facts_of X12.BridgeFile6.ex_file6 aux = Some d /\
+  X12.BridgeKinds.dclass_side6 true C01.Mutf8.mutf8_dec d = true.
+Proof. exact X12.BridgeKinds.side_example. Qed.
+Print Assumptions C02_bridge_class_file_every_tree_example.
